@@ -706,6 +706,28 @@ def sweep(run, quick):
     ctx.stat("sweep:N-with-2-landmarks-at-ratio-3/N", len(bad))
 
 
+def full_api(run, cases):
+    """thorough: the same cases through tapkee::with(..).withDistance(..).embedRange(..) (all 20 methods instantiated,
+    embed.hpp front end) must print exactly what the light harness prints"""
+    ctx = run.ctx
+    binary, log = ctx.build_harness("c11_landmarks.cpp", name="c11_landmarks_full", flags=FLAGS, extra=["-DC11_FULL_API"])
+    if not binary:
+        ctx.broken("harness-build-full", "harness c11_landmarks.cpp -DC11_FULL_API",
+                   "full-API harness does not compile against the repository: " + log[-1200:])
+        return
+    lines = [c.line for c in cases]
+    light = run.impl(lines)
+    full = Run(ctx, binary).impl(lines)
+    diff = [(l, a, b) for l, a, b in zip(lines, light, full) if a != b and not (a.startswith("abort:") and b.startswith("abort:"))]
+    ctx.extra["full_public_api_cases"] = {"compared": len(lines), "different": len(diff)}
+    ctx.stat("full-api:identical", len(lines) - len(diff))
+    if diff:
+        l, a, b = diff[0]
+        ctx.broken("corr:full-api", "correspondence: method classes driven directly vs tapkee::with(...).embedRange(...)",
+                   "the public API chain returns something else than validate()+embed() of the method class",
+                   case=l, detail={"light": a[:1500], "full": b[:1500]})
+
+
 # ----------------------------------------------------------------------------- entry points
 def build(ctx):
     binary, log = ctx.build_harness("c11_landmarks.cpp", flags=FLAGS)
@@ -754,6 +776,25 @@ def judge_lines(run, lines):
         judge_lisomap(run, li)
 
 
+def unmask_known(ctx):
+    """vlib.finish drops every `broken` report as soon as ANY failing input exists, including inputs that match an
+    open KNOWN_FINDINGS entry; an open finding must not hide a broken correspondence, so known hits are announced here
+    (same line vlib prints) and taken out of the failure list before finish() runs."""
+    known = ctx.known()
+    if not known:
+        return
+    keep = []
+    for f in ctx.failures:
+        k = [k for k in known if re.fullmatch(k["signature"], f.signature)] if f.kind == "failing-input" else []
+        if k:
+            if f.signature not in ctx.known_hits:
+                print("KNOWN-FINDING: property=%s %s [%s]" % (ctx.prop, k[0].get("what", f.what), f.signature))
+                ctx.known_hits.append(f.signature)
+        else:
+            keep.append(f)
+    ctx.failures = keep
+
+
 def replay_case(ctx, body):
     binary = build(ctx)
     if binary:
@@ -789,12 +830,16 @@ def correspond(ctx):
     for i in range(0, len(lis), 200):
         judge_lisomap(run, lis[i:i + 200])
     ctx.log("lisomap done")
+    if not quick:
+        full_api(run, cases[:150] + lis[:100])
+        ctx.log("full public API build compared")
     ctx.cov["rule"] = ("select: N 1..%d, boundary ratios 3/N, k/N, dyadic, 1, 0; triangulate: exact-mode (integer callback values, "
                        "dyadic V, power-of-two eigenvalues, repeated landmarks, zero eigenvalue); Landmark MDS / Landmark Isomap "
                        "through the method classes: exact-mode integer metrics with N, n_l powers of two (== required), Euclidean "
                        "integer points of affine rank <, =, > d, every landmark subset of small sets via seed search, ratio = 1, "
                        "d > n_l, randomized solver; non-trivial = at least 2 landmarks / N > 3; distinct by case text"
                        % (400 if quick else 3000))
+    unmask_known(ctx)
     ctx.assumptions += [
         "the geodesic stage of Landmark Isomap (k-NN + Dijkstra) is taken from the implementation (C04 covers it); C11 ties everything after it",
         "eigensolver, sqrt and the shuffle enter as contracts checked on the observed values (residual/orthonormality 2^-30, sqrt 2^-40, permutation)",
